@@ -221,8 +221,10 @@ func createPointerJobs(left, right IndividualNodes, options *IndividualNodesComp
 
 			// Don't resend individuals already sent.
 			if _, ok := options.sentA.Load(a.Pointer()); ok {
+				verifHook("ptr", w, "loadA", a.Pointer(), "hit")
 				continue
 			}
+			verifHook("ptr", w, "loadA", a.Pointer(), "miss")
 
 			b := right.ByPointer(a.Pointer())
 
@@ -232,8 +234,10 @@ func createPointerJobs(left, right IndividualNodes, options *IndividualNodesComp
 
 			// Don't resend individuals already sent.
 			if _, ok := options.sentB.Load(b.Pointer()); ok {
+				verifHook("ptr", w, "loadB", b.Pointer(), "hit")
 				continue
 			}
+			verifHook("ptr", w, "loadB", b.Pointer(), "miss")
 
 			ss := a.SurroundingSimilarity(b, options.SimilarityOptions, true)
 			if ss.WeightedSimilarity() >= options.SimilarityOptions.PreferPointerAbove {
@@ -245,9 +249,12 @@ func createPointerJobs(left, right IndividualNodes, options *IndividualNodesComp
 					Similarity:   ss,
 					certainMatch: true,
 				}
+				verifHook("ptr", w, "send", a.Pointer(), b.Pointer())
 
 				options.sentA.Store(a.Pointer(), nil)
+				verifHook("ptr", w, "storeA", a.Pointer())
 				options.sentB.Store(b.Pointer(), nil)
+				verifHook("ptr", w, "storeB", b.Pointer())
 			}
 		}
 	})
@@ -270,6 +277,7 @@ func createUniqueJobs(left, right IndividualNodes, options *IndividualNodesCompa
 				// identifier. Each individual can only be matched once, with
 				// whoever gets there first.
 				_, alreadySent := options.sentB.LoadOrStore(bs[0].Pointer(), nil)
+				verifHook("uniq", w, "claimB", bs[0].Pointer(), verifHit(alreadySent))
 				if alreadySent {
 					continue
 				}
@@ -283,9 +291,12 @@ func createUniqueJobs(left, right IndividualNodes, options *IndividualNodesCompa
 					Similarity:   ss,
 					certainMatch: true,
 				}
+				verifHook("uniq", w, "send", a.Pointer(), bs[0].Pointer())
 
 				options.sentA.Store(a.Pointer(), nil)
+				verifHook("uniq", w, "storeA", a.Pointer())
 				options.sentB.Store(bs[0].Pointer(), nil)
+				verifHook("uniq", w, "storeB", bs[0].Pointer())
 			}
 		}
 	})
@@ -332,26 +343,33 @@ func createJobs(totals chan int64, left, right IndividualNodes, options *Individ
 		}
 
 		close(totals)
+		verifHook("matrix", 0, "closeTotals")
 
 		// Send the remaining matrix of individuals to be compared.
 		for _, a := range left {
 			if _, ok := options.sentA.Load(a.Pointer()); ok {
+				verifHook("matrix", 0, "loadA", a.Pointer(), "hit")
 				continue
 			}
+			verifHook("matrix", 0, "loadA", a.Pointer(), "miss")
 
 			for _, b := range right {
 				if _, ok := options.sentB.Load(b.Pointer()); ok {
+					verifHook("matrix", 0, "loadB", b.Pointer(), "hit")
 					continue
 				}
+				verifHook("matrix", 0, "loadB", b.Pointer(), "miss")
 
 				jobs <- &IndividualComparison{
 					Left:  a,
 					Right: b,
 				}
+				verifHook("matrix", 0, "send", a.Pointer(), b.Pointer())
 			}
 		}
 
 		close(jobs)
+		verifHook("matrix", 0, "closeJobs")
 	}()
 
 	return jobs
@@ -364,12 +382,14 @@ func (o *IndividualNodesCompareOptions) processJobs(jobs chan *IndividualCompari
 	go func() {
 		util.WorkerPool(options.ConcurrentJobs(), func(i int) {
 			for j := range jobs {
+				verifHook("proc", i, "recv", verifPointer(j.Left), verifPointer(j.Right))
 				// The similarity may already be calculated from when it was
 				// comparing on the pointer.
 				if j.Similarity == nil {
 					j.Similarity = j.Left.SurroundingSimilarity(j.Right, o.SimilarityOptions, false)
 				}
 				results <- j
+				verifHook("proc", i, "send", verifPointer(j.Left), verifPointer(j.Right))
 			}
 		})
 
@@ -447,6 +467,7 @@ func (o *IndividualNodesCompareOptions) calculateWinners(a, b IndividualNodes, s
 			// Remove any certain matches from the pool of possible winners.
 			if similarity.certainMatch {
 				winners <- similarity
+				verifHook("win", 0, "emit", verifPointer(similarity.Left), verifPointer(similarity.Right), "certain")
 				found[similarity.Left] = true
 				found[similarity.Right] = true
 				continue
@@ -475,6 +496,7 @@ func (o *IndividualNodesCompareOptions) calculateWinners(a, b IndividualNodes, s
 			}
 
 			winners <- s
+			verifHook("win", 0, "emit", verifPointer(s.Left), verifPointer(s.Right), "similar")
 			found[s.Left] = true
 			found[s.Right] = true
 		}
